@@ -183,6 +183,22 @@ fn gen_object_text(rng: &mut Rng) -> String {
     for _ in 0..n {
         let name = *rng.pick(&names);
         let is_time = matches!(name, "exp" | "nbf" | "iat");
+        // a JSON parser un-escapes member names: "\u0069ss" IS the member "iss"
+        let escaped_name = if name.len() == 3 && rng.chance(1, 6) {
+            let k = rng.below(3);
+            let mut s = String::from("\"");
+            for (i, ch) in name.chars().enumerate() {
+                if i == k {
+                    s.push_str(&format!("\\u{:04x}", ch as u32));
+                } else {
+                    s.push(ch);
+                }
+            }
+            s.push('"');
+            Some(s)
+        } else {
+            None
+        };
         let val = match rng.below(12) {
             0 => "null".to_string(),
             1 => "123".to_string(),
@@ -205,7 +221,7 @@ fn gen_object_text(rng: &mut Rng) -> String {
                 }
             }
         };
-        parts.push(format!("{}:{}", serde_json::to_string(name).unwrap(), val));
+        parts.push(format!("{}:{}", escaped_name.unwrap_or_else(|| serde_json::to_string(name).unwrap()), val));
     }
     let ws = *rng.pick(&["", " ", "\n\t "]);
     format!("{{{ws}{}{ws}}}", parts.join(&format!("{ws},{ws}")))
